@@ -317,9 +317,12 @@ def one_grammar(rng, ctx):
     start_sym = symbols[0]
     n_prods = rng.randint(2, 8)
     prods = []
+    closing = rng.random() < .7      # most symbols get a terminal first
     for i in range(n_prods):
         r = rng.random()
         cod = start_sym if i == 0 else rng.choice(symbols)
+        if closing and 0 < i <= len(symbols):
+            r, cod = 0., symbols[i - 1]
         if r < .4:
             prod = cfg.Word("t{}".format(i), Ty(cod))
         elif r < .75:
@@ -666,6 +669,7 @@ def probe_boxes(ctx, fs, diagram, stats):
             try:
                 side_ty = box.cod.left if box.left else box.cod.right
                 info["curried_image_len"] = len(fs.image(side_ty))
+                info["inner_dom_image_len"] = len(fs.image(box.diagram.dom))
             except Exception as err:
                 info["info_error"] = type(err).__name__
         stats["rules"] += 1
@@ -903,6 +907,7 @@ def _curry_right_empty_wires(monitor, witness):
     return monitor == "functor-box-image" and witness.get("rule") == "Curry"\
         and witness.get("curry_left") is False\
         and witness.get("curried_image_len") == 0\
+        and witness.get("inner_dom_image_len", 0) > 0\
         and witness.get("outcome") == "exception"\
         and witness.get("exception") == "AxiomError"
 
